@@ -63,3 +63,10 @@ def apply(c):
             }
             open spec fn wf_dec(data: Seq<u8>, p: int, v: &Self, p2: int) -> bool { true }
 """)
+
+    # ---- parse_rdata: same cursor contract as the trait
+    c.contract(rel, None, 'parse_rdata', """
+        requires *old(position) <= data.len(), data.len() <= isize::MAX,
+        ensures r is Ok ==> *old(position) <= *final(position), // @C01:cursor-monotone
+            r is Ok ==> *final(position) <= data.len(), // @C01:cursor-in-bounds
+""")
